@@ -1954,6 +1954,15 @@ def rule_subtractions(eng):
                     fs = eng.mf(f).at(at if at is not None else s)
                     if root is not None:
                         fs = list(fs) + left_context(root, n.get("id"), f)
+                    else:
+                        # an expression put in place of a call when the fact base was loaded is evaluated in one CFG block: what its operands to
+                        # the left establish is not in the block facts
+                        top = None
+                        for anc in f.ancestors(n):
+                            if anc.get("inlined_from") and anc.get("k") == "cast":
+                                top = anc
+                        if top is not None:
+                            fs = list(fs) + left_context(top, n.get("id"), f)
                     # facts from earlier conjuncts in the same expression are path facts too (CFG splits &&)
                     ok = False
                     why = ""
